@@ -254,7 +254,16 @@ func (fsm *FSM) Snapshot() (raft.FSMSnapshot, error) {
 	compactionEnd := compactionStart.Add(-1 * exp)
 
 	tmpServer := ircserver.NewIRCServer("testnetwork", time.Now())
-	if oldState, ok := fsm.lastSnapshotState[first-1]; !ok {
+	// The previous state is filed under the last index it includes, which
+	// is not necessarily first-1: indexes of raft-internal messages are not
+	// part of ircstore. Use the most recent state before first.
+	var base uint64
+	for key, _ := range fsm.lastSnapshotState {
+		if key < first && key >= base {
+			base = key
+		}
+	}
+	if oldState, ok := fsm.lastSnapshotState[base]; !ok {
 		if first == 1 {
 			// This is the first snapshot which this RobustIRC network
 			// is taking, there cannot be previous state.
@@ -266,17 +275,20 @@ func (fsm *FSM) Snapshot() (raft.FSMSnapshot, error) {
 		if _, err := tmpServer.Unmarshal(oldState); err != nil {
 			return nil, err
 		}
-		// All snapshot states but first-1 can now be deleted. first-1
+		// All snapshot states but base can now be deleted. base
 		// needs to be retained in case the snapshot which is
 		// currently in progress fails and needs to be repeated.
 		for key, _ := range fsm.lastSnapshotState {
-			if key == first-1 {
+			if key == base {
 				continue
 			}
 			delete(fsm.lastSnapshotState, key)
 		}
 	}
 
+	// lastIncluded is the last index whose message is part of the snapshot
+	// state. If all messages get compacted, that is last (not first-1).
+	lastIncluded := last
 	iterator := fsm.ircstore.GetBulkIterator(first, last+1)
 	defer iterator.Release()
 	available := iterator.First()
@@ -317,6 +329,7 @@ func (fsm *FSM) Snapshot() (raft.FSMSnapshot, error) {
 		parsed := robust.NewMessageFromBytes(nlog.Data, robust.IdFromRaftIndex(nlog.Index))
 		if parsed.Timestamp().After(compactionEnd) {
 			first = i
+			lastIncluded = i - 1
 			break
 		}
 
@@ -331,12 +344,12 @@ func (fsm *FSM) Snapshot() (raft.FSMSnapshot, error) {
 		}
 	}
 
-	state, err := tmpServer.Marshal(first - 1)
+	state, err := tmpServer.Marshal(lastIncluded)
 	if err != nil {
 		return nil, err
 	}
 
-	fsm.lastSnapshotState[first-1] = state
+	fsm.lastSnapshotState[lastIncluded] = state
 
 	return &robustSnapshot{
 		firstIndex:    first,
